@@ -65,11 +65,22 @@ def gen_program(rng, tier):
             ops = _restricted(rng, [_gen_op(rng, includes, helpers) for _ in range(rng.randint(1, 5))])
             blocks.append({"var": rng.choice(["ii", "jj", "tid", "ipart"]), "chain": b > 0 and rng.random() < 0.5, "ops": ops})
         lim = rng.choice(["n", "n", "n", "n-1", "n/2", "n-3"])
+        if len(blocks) > 1 and rng.random() < 0.3:
+            # one block runs over a smaller bound than the launch (segments between nodes: n-1 of n):
+            # CPU loops to its own bound, CUDA guards each block with its own bound; the OpenCL form
+            # has no guard at all, so such kernels are not launched on OpenCL (not claimed there)
+            j = rng.randrange(len(blocks))
+            blocks[j]["short"] = rng.choice([1, 1, 2, 5])
+            if j + 1 < len(blocks):
+                blocks[j + 1]["chain"] = False
         kernels.append({"name": f"kern{kk}", "limit": lim, "blocks": blocks, "filler": rng.sample(range(1000), rng.randint(0, 4)), "scalar": rng.choice([None, "Float64", "Int64"]), "restrict": rng.random() < 0.5})
     # control characters that str.splitlines() treats as line ends although they are ordinary C white
     # space / comment text (form feeds separate pages in GNU-style sources)
     ws = rng.choice(["\x0c", "\x0b", "\x1c", "\x1d", "\x1e"]) if rng.random() < 0.25 else None
-    return {"ws": ws, "built": built, "includes": includes, "helpers": helpers, "kernels": kernels, "omp": rng.choice([2, 2, "auto"]), "block_size": rng.choice([1, 2, 3, 4, 32, 33, 48, 100, 200, 256]), "nops": rng.choice([2, 4, 6, 10]) if tier == "quick" else rng.choice([6, 12, 20])}
+    # the whole annotated text in an included file named for every context, the main source holding
+    # only include lines and filler (annotations arrive through the splice, not in the text handed in)
+    split = f"xobody_{uid}.h" if rng.random() < 0.2 else None
+    return {"split": split, "ws": ws, "built": built, "includes": includes, "helpers": helpers, "kernels": kernels, "omp": rng.choice([2, 2, "auto"]), "block_size": rng.choice([1, 2, 3, 4, 32, 33, 48, 100, 200, 256]), "nops": rng.choice([2, 4, 6, 10]) if tier == "quick" else rng.choice([6, 12, 20])}
 
 
 def _gen_op(rng, includes, helpers=()):
@@ -108,6 +119,12 @@ def render(prog):
     fill("top")
     for inc in prog["includes"]:
         L.append(f"//include_file {inc['file']} for_context {' '.join(inc['contexts'])}")
+    head = None
+    if prog.get("split"):
+        L.append(f"//include_file {prog['split']} for_context {' '.join(TARGETS)}")
+        fill("after_body")  # (moved behind the body below: order of the filler list = order in the text)
+        tail_filler = filler.pop()
+        head, L = L, []
     for h in prog["helpers"]:
         L.append(f"/*gpufun*/ double {h['name']}(double t, double c){{")
         L.append(f"  double r = t*{h['mul']}.0 + c + {h['add']}.0;")
@@ -138,7 +155,8 @@ def render(prog):
             filler.append(L[-1])
         for b, blk in enumerate(k["blocks"]):
             v = blk["var"]
-            L.append(f"  for (int {v}=0; {v}<{lim}; {v}++){{ //vectorize_over {v} {lim}")
+            blim = f"{lim}-{blk['short']}" if blk.get("short") else lim
+            L.append(f"  for (int {v}=0; {v}<{blim}; {v}++){{ //vectorize_over {v} {blim}")
             src = f"out{b-1}[{v}]" if blk["chain"] else f"x[{v}]"
             L.append(f"    double t = {src};")
             if k["scalar"]:
@@ -150,7 +168,10 @@ def render(prog):
             L.append("  }//end_vectorize")
             fill(f"{k['name']}_{b}")
         L.append("}")
-    return "\n".join(L) + "\n", filler
+    if head is not None:
+        filler.append(tail_filler)
+        return "\n".join(head) + "\n", filler, "\n".join(L) + "\n"
+    return "\n".join(L) + "\n", filler, None
 
 
 def _stmt(prog, o, var):
@@ -241,7 +262,7 @@ class DevSim:
             oplist = [self.gen_op(rng, prog) for _ in range(prog["nops"])]
         ops = []
         res.replay = {"world": prog, "ops": ops, "profile": profile, "engine": "devsim"}
-        src, filler = render(prog)
+        src, filler, body = render(prog)
         written = []
         old_info = xo.ContextCpu._compile_kernels_info
         xo.ContextCpu._compile_kernels_info = False
@@ -251,6 +272,11 @@ class DevSim:
                     with open(inc["file"], "w") as f:
                         f.write(f"/* XOINC marker {inc['macro']} */\n#define {inc['macro']} {inc['value']}.0\n")
                     written.append(inc["file"])
+            if body is not None:
+                with open(prog["split"], "w") as f:
+                    f.write(body)
+                written.append(prog["split"])
+                res.fault("annotated_text_arrives_through_include")
             with device.installed() as fakes:
                 self.fakes = fakes
                 viols = self.build_all(prog, src, filler, res)
@@ -261,6 +287,9 @@ class DevSim:
                     return res
                 for op in oplist:
                     if op["kernel"] >= len(prog["kernels"]) or op["target"] not in prog["built"]:
+                        res.skipped += 1
+                        continue
+                    if op["target"] == "opencl" and any(b.get("short") for b in prog["kernels"][op["kernel"]]["blocks"]):
                         res.skipped += 1
                         continue
                     ops.append(op)
@@ -429,7 +458,13 @@ class DevSim:
                 tv = tv + float(op["sc"])
             tv = model_apply(prog, blk["ops"], tv, t)
             outs.append(tv)
+        nlaunch = n
         for b in range(len(k["blocks"])):
+            # (a block with a bound of its own below the launch size)
+            n = max(0, nlaunch - k["blocks"][b].get("short", 0))
+            outs[b] = outs[b][:n]
+            if n != nlaunch:
+                res.probe("block_bound_below_launch_size")
             hits = A.data(f"hits{b}")
             want_hits = before[f"hits{b}"][GUARD : GUARD + A.nmax].copy()
             want_hits[:n] += 1
